@@ -15,6 +15,7 @@ import struct
 import numpy as np
 
 from ..core import digest
+from ..core import gen_seed
 from ..seams import _REAL_DEFAULT_RNG
 
 
@@ -110,7 +111,7 @@ ROUTES = ["sizes", "shape", "data", "from_data", "units", "load_fil"]
 def gen_frame_spec(rng, geom=None, routes=None):
     g = dict(geom) if geom else gen_geom(rng)
     route = rng.choice(routes or ROUTES)
-    spec = {"route": route, "geom": g, "seed": rng.randrange(1 << 30),
+    spec = {"route": route, "geom": g, "seed": gen_seed(rng),
             "t_start": rng.choice([0.0, 1.7e9, 1.5e9 + 0.25, 59000.5 * 86400 - 3506716800.0 + 40587 * 0]),
             "mjd": rng.choice([None, None, 59000.5, 60123.123456]),
             "source_name": rng.choice([None, "Synthetic", "VOYAGER1", "TIC 1234"]),
@@ -200,11 +201,11 @@ def gen_signal(rng, g, allow_box=True, stateful=False):
     path = {"kind": pk, "idx": rng.choice([0.1, 0.25, 0.5, 0.7, 0.95, -0.2, 1.3]),
             "drift": rng.choice([0.0, 0.5, -0.5, 1.5, -2.0]) * span / max(total, 1e-9) / 4,
             "period": rng.choice([total / 2 + 1, 50.0]), "amp": rng.choice([1.0, 3.0]) * g["df"],
-            "spread": rng.choice([1.0, 4.0]) * g["df"], "seed": rng.randrange(1 << 30),
+            "spread": rng.choice([1.0, 4.0]) * g["df"], "seed": gen_seed(rng),
             "rfi_type": rng.choice(["stationary", "random_walk"])}
     tk = rng.choice(["constant", "sine", "ramp", "scalar", "array", "list"] + (["pulse"] if stateful else []))
     tprof = {"kind": tk, "level": rng.choice([1.0, 5.0, 0.01]), "period": rng.choice([total / 2 + 1, 33.0]),
-             "slope": 1.0 / max(total, 1.0), "seed": rng.randrange(1 << 30)}
+             "slope": 1.0 / max(total, 1.0), "seed": gen_seed(rng)}
     opts = {}
     if rng.random() < 0.4:
         opts = {"integrate_path": rng.random() < 0.4, "integrate_t_profile": rng.random() < 0.4,
